@@ -311,6 +311,9 @@ def x_assert(ctx, case):
                 twin = None
             except MismatchError as e:
                 twin = str(e)
+            except Exception as e:  # noqa - match() / describe() raising on an in-domain value: reported, not tripped over
+                twin = None
+                ctx.check(False, "assert_that.raises-iff-mismatch", {"assert_that raised": repr(e), **detail()})
             fe = b"\n".join(v for k, v in sorted(have.items()) if k.startswith("Failed expectation"))
             # (the detail is a stack trace followed by "MismatchError: " + that text - the suite pins that layout)
             ctx.check(twin is not None and ("MismatchError: " + twin).encode("utf8", "replace") in fe,
